@@ -468,16 +468,11 @@ def in_defect_region(op, st, kind, depth):
     if k in ("setitem", "set_at", "setitem_same"):
         descs = op[1]
         f["write_index_none"] = any(d[0] == "non" for d in descs)
-        f["write_index_empty_tuple"] = len(expand_ellipsis(descs, st.pos.dim())) == 0
+        # (td[()] = value was finding C16-g: repaired)
         # (writes through an integer tensor of rank >= 2 were finding C16-h: fixed by e0579fb)
-    if k == "cat":
-        cur = call(lambda: rep(st.td.get("s"), st.pl))
-        cid = cur[1][1] if cur[0] == "ok" and cur[1][0] == "S" else None
-        trivial = cid is not None and all(o[0] in ("self", "clone") or (o[3][0] == "shared" and o[3][1] == cid) for o in op[2])
-        f["cat_distinct_or_stack"] = not trivial
-    if k == "update" and op[1] in ("update_", "copy_"):
-        f["update_skips_non_tensor"] = True
-    if k == "update" and op[1] == "update-inplace" and kind == "stack":
+    # (torch.cat of non-tensor entries was finding C16-d, update_ / copy_ C16-e, to_dict D20, memmap after permute C16-m: repaired)
+    whole_update_at = k == "set_at" and op[5] == "update_at_" and len(expand_ellipsis(op[1], st.pos.dim())) == 0 and not op[2]
+    if ((k == "update" and op[1] in ("update-inplace", "update_", "copy_")) or whole_update_at) and kind == "stack":
         cur = call(lambda: rep(st.td.get("s"), st.pl))
         f["update_inplace_partly_expanded_stack"] = bool(cur[0] == "ok" and not fully_expanded(cur[1]))
     if k in ("setitem", "set_at", "setitem_same") or (k == "update" and op[1] != "update"):
@@ -485,13 +480,8 @@ def in_defect_region(op, st, kind, depth):
         f["write_to_aliased_members"] = bool(e[0] == "ok" and has_alias(e[1]))
     if k in LAZY_UNSUPPORTED and kind == "stack":
         f["shape_op_on_stack"] = True
-    if k == "to_dict" and kind == "stack":
-        f["to_dict_stack"] = True
     if k == "memmap" and has_seq_payload(st):
         f["memmap_seq_payload"] = True
-    if k == "memmap":
-        e = call(lambda: st.td.get("s"))
-        f["memmap_numpy_stack_dim"] = bool(e[0] == "ok" and numpy_stack_dim(e[1]))
     return {a: b for a, b in f.items() if b}
 
 
@@ -579,7 +569,7 @@ def gen_op1(rng, pos, pl, allow):
     if k == "update":
         how = rng.choice(["update", "update", "update_", "update-inplace", "copy_"])
         o = gen_operand(rng, bs, pl)
-        if how == "update-inplace":
+        if how in ("update-inplace", "update_", "copy_"):
             # NonTensorData.update(NonTensorStack) is a documented refusal; a uniform source keeps the kinds compatible
             cid = rng.randrange(len(pl.pool))
             o = ["new", list(bs), [cid] * max(n, 0 if 0 in bs else 1), ["shared", cid]]
@@ -1376,8 +1366,7 @@ def main(R):
             c = {k: case[k] for k in ("pseed", "bs", "assign", "plan", "ops", "stream", "pool") if k in case}
             c["ops"] = c["ops"][: f["step"] + 1] if f["step"] >= 0 else []
             R.oracle_fail(f["label"], c, f["detail"], f["sig"])
-    R.extra["stated_not_proved"] = ["C16_data_full_statement (refuted: C16_data_refuted, finding C16-a)",
-                                    "C16_cat_full_statement (refuted: C16_cat_refuted, finding C16-d)"]
+    R.extra["stated_not_proved"] = []
     if ok:
         check_model(R, all_traces)
     if R.extra.get("spec_mismatch"):
@@ -1435,6 +1424,9 @@ def model_lines_for(t, case):
         out.append(("maybe_to_stack", sx([Sym("to-stack"), rep_sx(before)]), after, "rep"))
         if before[0] == "S":
             out.append(("from_nontensordata", sx([Sym("from-ntd"), rep_sx(before)]), after, "rep"))
+    elif k == "set_at" and op[5] == "update_at_" and not op[1] and not op[2] and aux.get("value_exp") is not None:
+        # update_at_(td, ()) is update_(td)
+        out.append(("update_at_()", sx([Sym("update-in"), rep_sx(before), rep_sx(aux["value_exp"])]), after, "rep"))
     elif k in ("setitem", "set_at") and aux.get("value") is not None and rep_ok(aux["value"]):
         descs = expand_ellipsis(op[1], r_before)
         out.append(("set_at", sx([Sym("set-at"), rep_sx(before), idx_sx(descs), rep_sx(aux["value"]), rep_sx(aux["value_exp"])]), after, "rep"))
@@ -1442,7 +1434,7 @@ def model_lines_for(t, case):
         out.append(("set_at-same", sx([Sym("index"), rep_sx(before), []]), after, "rep"))
     elif k == "update" and op[1] == "update" and aux.get("value") is not None:
         out.append(("update", sx([Sym("index"), rep_sx(aux["value"]), []]), after, "rep"))
-    elif k == "update" and op[1] == "update-inplace" and aux.get("value") is not None and rep_ok(aux["value"]):
+    elif k == "update" and op[1] in ("update-inplace", "update_", "copy_") and aux.get("value") is not None and rep_ok(aux["value"]):
         out.append(("update-inplace", sx([Sym("update-in"), rep_sx(before), rep_sx(aux["value"])]), after, "rep"))
     elif before[0] == "S" and k in ("view", "reshape", "flatten", "unflatten"):
         out.append((k, sx([Sym("reshape"), rep_sx(before), list(t["obs"]["shape"])]), after, "rep"))
@@ -1459,7 +1451,7 @@ def model_lines_for(t, case):
         out.append((k, sx([Sym("squeeze"), rep_sx(before), op[1] % r_before]), after, "rep"))
     elif before[0] == "S" and k == "expand":
         out.append((k, sx([Sym("expand"), rep_sx(before), list(op[1])]), after, "rep"))
-    elif k == "cat" and aux.get("operands") and all(o[0] == "S" for o in aux["operands"]):
+    elif k == "cat" and aux.get("operands") and all(rep_ok(o) for o in aux["operands"]) and all(c == "TensorDict" for c in aux.get("containers", [])):
         out.append((k, sx([Sym("cat"), [rep_sx(o) for o in aux["operands"]], op[1] % r_before]), after, "rep"))
     elif k == "to_dict":
         td_obs = t["obs"].get("to_dict")
@@ -1471,10 +1463,7 @@ def model_lines_for(t, case):
 def in_region_static(t):
     """region flags of THIS step only (the sticky ones of earlier steps taint the oracle's attribution, not the model's input,
     which is the real representation before the step); cat of NonTensorData and to_dict are modelled with their defects"""
-    r = dict(t.get("region_step", {}))
-    r.pop("cat_distinct_or_stack", None) if all(o and o[0] == "S" for o in (t["aux"].get("operands") or [None])) else None
-    r.pop("to_dict_stack", None)
-    return r
+    return dict(t.get("region_step", {}))
 
 
 def spec_lines_for(t):
